@@ -29,6 +29,28 @@ var solvers = []solverSpec{
 	}},
 }
 
+// second-stage variants for obligations the default configurations do not decide quickly
+var solvers2 = []solverSpec{
+	{"z3-5.1.0", func(f string, t, seed int) []string {
+		return []string{"z3-new", "-smt2", fmt.Sprintf("-T:%d", t), fmt.Sprintf("smt.random_seed=%d", seed), f}
+	}},
+	{"z3-5.1.0/arith.solver=2", func(f string, t, seed int) []string {
+		return []string{"z3-new", "-smt2", fmt.Sprintf("-T:%d", t), "smt.arith.solver=2", fmt.Sprintf("smt.random_seed=%d", seed), f}
+	}},
+	{"z3-5.1.0/grobner=false", func(f string, t, seed int) []string {
+		return []string{"z3-new", "-smt2", fmt.Sprintf("-T:%d", t), "smt.arith.nl.grobner=false", fmt.Sprintf("smt.random_seed=%d", seed), f}
+	}},
+	{"z3-5.1.0/qi.eager=100", func(f string, t, seed int) []string {
+		return []string{"z3-new", "-smt2", fmt.Sprintf("-T:%d", t), "smt.qi.eager_threshold=100", fmt.Sprintf("smt.random_seed=%d", seed), f}
+	}},
+	{"z3-4.8.12", func(f string, t, seed int) []string {
+		return []string{"z3", "-smt2", fmt.Sprintf("-T:%d", t), fmt.Sprintf("smt.random_seed=%d", seed), f}
+	}},
+	{"cvc5-1.0", func(f string, t, seed int) []string {
+		return []string{"cvc5", "--lang=smt2", "--produce-models", fmt.Sprintf("--tlimit=%d", t*1000), fmt.Sprintf("--seed=%d", seed), f}
+	}},
+}
+
 const maxVCBytes = 1 << 20
 
 // buildQuery renders the SMT-LIB text of one obligation.
@@ -99,6 +121,20 @@ func solveOne(query string, timeoutS int, seed int, dir string, tag string) solv
 	if err := os.WriteFile(file, []byte(query), 0o644); err != nil {
 		return solveResult{answer: "error", out: err.Error()}
 	}
+	stage1 := 3
+	if timeoutS < stage1 {
+		stage1 = timeoutS
+	}
+	r := raceSolvers(solvers, file, stage1, seed)
+	if r.answer == "sat" || r.answer == "unsat" || timeoutS <= stage1 {
+		return r
+	}
+	r2 := raceSolvers(solvers2, file, timeoutS, seed)
+	r2.timeS += r.timeS
+	return r2
+}
+
+func raceSolvers(solvers []solverSpec, file string, timeoutS int, seed int) solveResult {
 	ctx, cancel := context.WithTimeout(context.Background(), time.Duration(timeoutS+2)*time.Second)
 	defer cancel()
 	type r struct {
